@@ -15,6 +15,9 @@ def check(ctx):
     ctx.rule("C07.L9", "worklist loops on the calling thread (all_ancestors, Kahn sort, pred_search) pop once per iteration and push only under a visited-set guard or when a decremented counter reaches zero")
     ctx.rule("C07.L8", "no blocking primitive and no user-reaching call inside any engine lock region; public queue protocol only")
     ctx.assume("calls are assumed to terminate; Thread.start() failing half-way is outside the fault model")
+    ctx.rule("C07.L10", "the engine evaluated as a whole on every small multigraph, failing set, max_errors, scheduler, worker count and dequeue order: queue.join() returns, every worker gets a sentinel and exits, every started thread is joined before the engine returns - also when starting a worker fails")
+    from .engineeval import rule_engine_evaluated
+    ctx.run(rule_engine_evaluated, "C07.L10", None, ("hang", "joined"), kinds=("run", "startup"))
     r = E.discover(ctx.model)
     ur = make_user_reaching(ctx.model)
     ctx.run(E.rule_get_task_done, "C07.L1", r)
